@@ -1,24 +1,37 @@
-(* Correspondence check for C14: the real vacuumOneVolumeLayout driven against
+(* Correspondence check for C14: the real Topology.Vacuum driven against
    in-process fake volume servers (gRPC) with a scripted outcome per replica and
-   phase.  The layout and the registered state are built by real heartbeats
-   ([k_setup], the C11 events); observed: the RPCs every replica received, in
-   order, and the writables before / after the round. *)
+   phase, one or more passes per case, with real heartbeats / collector sweeps /
+   disconnects before the passes and (from inside a fake Compact handler) while the
+   replicas compact.  A second, real master gets the same events at the same
+   times and never vacuums (the property's reference).  Observed per pass: the RPCs
+   every replica received, in order; writables, lookups, readonly / oversized
+   sets, registered state; whether the call returned; whether it panicked. *)
 From Coq Require Import List NArith Bool.
 From SW Require Export base.Verdict model.TopoLayout model.Vacuum.
 Import ListNotations.
 Local Open Scope N_scope.
 
+Record obs := {
+  ob_writ : list N;                      (* impl: sorted writables after the pass *)
+  ob_look : list (N * list N);           (* impl: sorted Lookup per vid after the pass *)
+  ob_ro : list N;                        (* impl: sorted vids with readonlyVolumes.IsTrue *)
+  ob_os : list N;                        (* impl: sorted vids with oversizedVolumes.IsTrue *)
+  ob_reg : regs;                         (* impl: registered state after the pass *)
+  ob_log : list ((N * N) * list rpc);    (* impl: for every (vid, node) of the case, the RPCs received during the pass *)
+  ob_hung : bool;                        (* impl: a Topology.Vacuum call has not returned (guard held) *)
+  ob_panic : bool;                       (* impl: Topology.Vacuum panicked (in this or an earlier pass) *)
+  ob_ctrl : list N;                      (* impl: sorted writables of the master that never vacuums *)
+  ob_ctrl_look : list (N * list N)       (* impl: its Lookup per vid *)
+}.
+
 Record case := {
   k_cfg : cfg;
   k_setup : list event;
-  k_scripts : scripts;
+  k_passes : list pass;
   k_vids : list N;                       (* the vids of the case *)
   k_nodes : list N;                      (* the data nodes of the case *)
-  k_before : list N;                     (* impl: sorted writables before the round *)
-  k_after : list N;                      (* impl: sorted writables after the round *)
-  k_look : list (N * list N);            (* impl: sorted Lookup per vid after the round *)
-  k_reg : regs;                          (* impl: registered state after the round *)
-  k_log : list ((N * N) * list rpc)      (* impl: for every (vid, node) of the case, the RPCs received in order *)
+  k_before : list N;                     (* impl: sorted writables before the first pass *)
+  k_obs : list obs                       (* one per pass *)
 }.
 
 Definition look_eqb := list_eqb (fun a b : N * list N => (fst a =? fst b) && nl_eqb (snd a) (snd b)).
@@ -31,41 +44,117 @@ Definition pairs (vs ns : list N) : list (N * N) :=
 
 Definition has_rpc (r : rpc) (l : list rpc) : bool := existsb (rpc_eqb r) l.
 
-(* property, clause 2, on the implementation's log: a replica that received a
-   commit had received a compact that succeeded, and so had every replica that
-   received a compact for that volume *)
-Definition o_commit_after_compact (k : case) : bool :=
+(* property, clause 2, on the implementation's log of one pass: a replica that
+   received a commit had received a compact that succeeded, and so had every
+   replica that received a compact for that volume *)
+Definition o_commit_after_compact (scs : scripts) (log : list ((N * N) * list rpc)) : bool :=
   forallb (fun e : (N * N) * list rpc =>
     let v := fst (fst e) in
     if has_rpc RCommit (snd e) then
       has_rpc RCompact (snd e) && negb (has_rpc RCleanup (snd e)) &&
       forallb (fun e' : (N * N) * list rpc =>
                  if (fst (fst e') =? v) && has_rpc RCompact (snd e')
-                 then is_cp_ok (sget (k_scripts k) v (snd (fst e'))) else true) (k_log k)
-    else true) (k_log k).
+                 then is_cp_ok (sget scs v (snd (fst e'))) else true) log
+    else true) log.
 
-(* property, clause 3, on the implementation's observables: if the writable set
-   agreed with the criterion (recomputed from the registered state) before the
-   round, it agrees after it *)
-Definition o_writable_iff (k : case) : bool :=
-  forallb (fun v =>
-    let cr := r_crit (k_cfg k) (k_reg k) v in
-    if Bool.eqb (mem v (k_before k)) cr then Bool.eqb (mem v (k_after k)) cr else true) (k_vids k).
+(* property, clause 3, on the implementation's observables only: after every pass
+   the vacuuming master has the writable set of the master that never vacuumed,
+   the call returned and did not panic *)
+Definition o_pass (p : pass) (o : obs) : bool :=
+  o_commit_after_compact (p_scs p) (ob_log o) &&
+  nl_eqb (ob_writ o) (ob_ctrl o) && negb (ob_hung o) && negb (ob_panic o).
+
+Fixpoint forallb2 {A B} (f : A -> B -> bool) (l1 : list A) (l2 : list B) : bool :=
+  match l1, l2 with
+  | [], [] => true
+  | x :: l1', y :: l2' => f x y && forallb2 f l1' l2'
+  | _, _ => false
+  end.
+
+Definition keys (m : list (N * list N)) : list N := nsort (map fst m).
+Definition looks (s : state) (vids : list N) := map (fun v => (v, nsort (lookup s v))) vids.
+
+(* model state after a pass and model reference state == observables of the pass *)
+Definition corr_pass (k : case) (qu : pstate * state) (o : obs) : bool :=
+  let '(q, u) := qu in
+  let s := q_st q in
+  nl_eqb (nsort (l_writ (s_lay s))) (ob_writ o) &&
+  look_eqb (looks s (k_vids k)) (ob_look o) &&
+  nl_eqb (keys (l_ro (s_lay s))) (ob_ro o) && nl_eqb (keys (l_os (s_lay s))) (ob_os o) &&
+  reg_eqb (reg_of (s_nodes s)) (ob_reg o) &&
+  log_eqb (map (fun p => (p, log_of (q_log q) (fst p) (snd p))) (pairs (k_vids k) (k_nodes k))) (ob_log o) &&
+  Bool.eqb (q_hung q) (ob_hung o) && Bool.eqb (q_panic q) (ob_panic o) &&
+  nl_eqb (nsort (l_writ (s_lay u))) (ob_ctrl o) && look_eqb (looks u (k_vids k)) (ob_ctrl_look o).
+
+(* which known finding the model's outcome of a pass falls under, per volume:
+   3 panic, 2 hang; writable where the unvacuumed master is not: 4 if the lookup
+   lists a server that is not registered, else 1; not writable where it is: 0 *)
+Definition round_class (vids : list N) (qu : pstate * state) : option N :=
+  let '(q, u) := qu in
+  if q_panic q then Some 3
+  else if q_hung q then Some 2
+  else
+    let s := q_st q in
+    let cls := map (fun v =>
+      match writable s v, writable u v with
+      | true, false =>
+          if existsb (fun n => match aget n (s_nodes s) with None => true | Some _ => false end) (lookup s v)
+          then Some 4 else Some 1
+      | false, true => Some 0
+      | _, _ => None
+      end) vids in
+    match filter (fun x : option N => match x with Some _ => true | None => false end) cls with
+    | x :: _ => x
+    | [] => None
+    end.
+
+(* for passes without master-side events the outcome class must coincide with the
+   input-defined triggers of model/Vacuum.v on the state before the pass
+   (c14_stuck_exact / c14_readmit_exact / c14_hang_exact, checked per case) *)
+Definition triggers_agree (c : cfg) (vids : list N) (s0 : state) (p : pass) (qu : pstate * state) (prev_ok : bool) : bool :=
+  match p_mid p, prev_ok with
+  | [], true =>
+      let s := run c s0 (p_pre p) in
+      let l := s_lay s in
+      let t :=
+        if existsb (trigger_hang (p_scs p) l) vids then Some 2
+        else match filter (fun v => trigger_stuck (p_scs p) l v || trigger_readmit c (s_nodes s) (p_scs p) l v) vids with
+             | v :: _ => if trigger_stuck (p_scs p) l v then Some 0 else Some 1
+             | [] => None
+             end in
+      match t, round_class vids qu with
+      | Some 2, Some 2 => true
+      | Some 2, _ => false
+      | Some a, Some b => a =? b
+      | None, None => true
+      | _, _ => false
+      end
+  | _, _ => true
+  end.
 
 Definition check (k : case) : outcome :=
-  let s0 := run (k_cfg k) init (k_setup k) in
-  let r := vacuum_layout (k_cfg k) (s_nodes s0) (k_scripts k) (s_lay s0) in
+  let c := k_cfg k in
+  let s0 := run c init (k_setup k) in
+  let qs := passes c (pstart s0) (k_passes k) in
+  let us := unvacuumed c s0 qs in
+  let qus := combine qs us in
   {| o_corr :=
        nl_eqb (nsort (l_writ (s_lay s0))) (k_before k) &&
-       nl_eqb (nsort (l_writ (r_lay r))) (k_after k) &&
-       look_eqb (map (fun v => (v, nsort (loc (r_lay r) v))) (k_vids k)) (k_look k) &&
-       reg_eqb (reg_of (s_nodes s0)) (k_reg k) &&
-       log_eqb (map (fun p => (p, log_of (r_log r) (fst p) (snd p))) (pairs (k_vids k) (k_nodes k))) (k_log k);
-     o_prop := o_commit_after_compact k && o_writable_iff k;
+       forallb2 (corr_pass k) qus (k_obs k) &&
+       (* only the first pass is compared with the input-defined triggers: later
+          passes start from a state the vacuum itself produced *)
+       match k_passes k, qus with
+       | p :: _, qu :: _ => triggers_agree c (k_vids k) s0 p qu true
+       | _, _ => true
+       end;
+     o_prop := forallb2 o_pass (k_passes k) (k_obs k);
      o_trig :=
-       if existsb (trigger_stuck (k_scripts k) (s_lay s0)) (k_vids k) then Some 0
-       else if existsb (trigger_readmit (k_cfg k) (s_nodes s0) (k_scripts k) (s_lay s0)) (k_vids k) then Some 1
-       else None;
-     o_nontrivial := existsb (fun e : (N * N) * list rpc => has_rpc RCompact (snd e)) (k_log k) |}.
+       match filter (fun x : option N => match x with Some _ => true | None => false end)
+                    (map (round_class (k_vids k)) qus) with
+       | x :: _ => x
+       | [] => None
+       end;
+     o_nontrivial :=
+       existsb (fun o => existsb (fun e : (N * N) * list rpc => has_rpc RCompact (snd e)) (ob_log o)) (k_obs k) |}.
 
 Definition summarize_cases (l : list case) : summary := summarize check l.
